@@ -160,10 +160,10 @@ def model_check(chk: Check, quick: bool) -> T.Dict[str, T.Any]:
 def main(chk: Check) -> None:
     quick = chk.tier == 'quick'
     rnd = random.Random(chk.seed * 1000003 + 15)
-    n_c = 14 if quick else 300
-    n_data = 10 if quick else 200
-    n_family = 10 if quick else 400
-    n_corpus = 20 if quick else 10000
+    n_c = 20 if quick else 300
+    n_data = 14 if quick else 200
+    n_family = 14 if quick else 400
+    n_corpus = 28 if quick else 10000
     chk.rule = ('seeded random C projects (3-12 targets, tests, installs, options, subprojects; ninja backend), language-less '
                 'data projects (--backend=none, real `meson install --destdir` and real `meson test`), a sample of the TLC '
                 'family and test cases/common. Non-trivial = a configured project whose views hold at least 3 targets or an '
